@@ -99,6 +99,7 @@ class Rec:
         self.matchings = []   # (graph keys, result) per _matching call
         self.clusters = None
         self.rec1 = self.rec2 = None
+        self.tp1 = self.tp2 = None   # (x, z) t-parity outputs of the two stages (rotated toric)
         self.cgraph = None
         self.created = []
 
@@ -148,9 +149,11 @@ def patched(D, rec):
 
     def h_rec1(a, out):
         rec.rec1 = np.array(out[0] if isinstance(out, tuple) else out)
+        rec.tp1 = (int(out[1]), int(out[2])) if isinstance(out, tuple) and len(out) == 3 else None
 
     def h_rec2(a, out):
         rec.rec2 = np.array(out[0] if isinstance(out, tuple) else out)
+        rec.tp2 = (int(out[1]), int(out[2])) if isinstance(out, tuple) and len(out) == 3 else None
 
     def h_cgraph(a, out):
         rec.cgraph = list(out.keys())
@@ -223,11 +226,13 @@ def pick_context(rng):
     return rng.choice([0.1, 1, 10, 300]), rng.choice(FINITE + [('bpf',)]), False   # finite, eta given
 
 
-def ftp_rows(rng, S, n, T, p, q, yonly):
-    """rows as app._run_once builds them: m[t-1] ^ synd(step_error[t]) ^ m[t] (periodic)"""
-    ss, mm = [], []
+def ftp_rows(rng, S, n, T, p, q, yonly, steps=None):
+    """rows as app._run_once builds them: m[t-1] ^ synd(step_error[t]) ^ m[t] (periodic); `steps` (a list) receives
+    the step errors and the measurement flips"""
+    ss, mm, es = [], [], []
     for _ in range(T):
         e = rand_error(rng, n, p, yonly)
+        es.append(e)
         ss.append(synd(S, e))
         if q == 1:
             mm.append(np.ones(S.shape[0], dtype=int))
@@ -235,13 +240,117 @@ def ftp_rows(rng, S, n, T, p, q, yonly):
             mm.append(np.array([int(rng.random() < q) for _ in range(S.shape[0])], dtype=int))
         else:
             mm.append(np.zeros(S.shape[0], dtype=int))
+    if steps is not None:
+        steps[:] = [es, mm]
     return np.array([mm[t - 1] ^ ss[t] ^ mm[t] for t in range(T)], dtype=int)
+
+
+def result_w(out):
+    """canonical text of a rotated-toric DecodeResult (same format as the driver's)"""
+    su = 'N' if out.success is None else str(int(bool(out.success)))
+    cv = np.asarray(out.custom_values).tolist()
+    return 'su={} rec={} cv={}'.format(su, bits(out.recovery), ','.join(str(int(x)) for x in cv) if cv else '_')
+
+
+def run_w(data):
+    """canonical text of the run data of app.run_once_ftp: weight:success:logical_commutations:custom_values"""
+    def il(v):
+        if v is None:
+            return 'N'
+        v = np.asarray(v).tolist()
+        return ','.join(str(int(x)) for x in v) if v else '_'
+    return '{}:{}:{}:{}'.format(int(data['error_weight']), int(bool(data['success'])), il(data['logical_commutations']),
+                                il(data['custom_values']))
 
 
 # ----------------------------------------------------------------------------------------------- one decode
 
-def one(ctx, acc, D, dec, code, S, size, rows, ideal, em_spec, p, q, tag, toric=False):
-    """run the real decoder on `rows`, queue the correspondence cases; returns the recovery (or None)"""
+def through_app(dec, code, T, em, p, q, steps):
+    """the decode_ftp call as the REAL app.run_once_ftp makes it: the step errors and measurement flips are scripted
+    (`generate` of this error-model instance and the rng replaced), the decoder is the real one behind a recording
+    DecoderFTP; returns (recorder, run data)"""
+    from qecsim import app
+    from qecsim.model import DecoderFTP
+    es, mm = steps
+    it = iter(es)
+    em.generate = lambda code_, probability, rng=None: np.array(next(it))
+
+    class Rng:
+        i = 0
+
+        def choice(self, a, size=None, p=None, **kw):
+            f = mm[self.i]; self.i += 1; return np.array(f)
+
+    class Through(DecoderFTP):
+        got = kw = syn = None
+
+        def decode_ftp(self, code_, time_steps, syndrome, **kw):
+            self.kw = kw; self.syn = np.array(syndrome, dtype=int)
+            self.got = dec.decode_ftp(code_, time_steps, syndrome, **kw)
+            return self.got
+
+        @property
+        def label(self):
+            return dec.label
+    th = Through()
+    data = app.run_once_ftp(code, T, em, th, p, q, Rng())
+    return th, data
+
+
+def driver_has_tftp(ctx):
+    """dev mode only (`--no-lean` against a private copy of the Lean project made before Model/SmwpmTp.lean existed):
+    a driver without the ops `smwpm tftp` / `trun` makes these cases be skipped (and counted); a run with proof audit
+    builds the driver from the current sources, so there the cases are always queued"""
+    if not getattr(ctx, 'nolean', False):
+        return True
+    if not hasattr(ctx, '_has_tftp'):
+        ctx._has_tftp = ctx.driver.ask(['smwpm tftp 000 2 2 1 0000 . . N'])[0] != 'bad-op'
+    return ctx._has_tftp
+
+
+def toric_ftp_case(ctx, rec, size, rows, fl, itp, meas, out, meta, steps=None, run_data=None):
+    """rotated toric `decode_ftp`: the t-parity outputs of both stages, `success` and `custom_values` of the returned
+    DecodeResult as functions of the two RECORDED matchings (driver op `smwpm tftp`), and — when the call was made
+    by app.run_once_ftp with scripted step errors / flips (`steps`, `run_data`) — the rows the simulation built and the
+    verdict of the run (`smwpm trun`).  `rec` is a `Rec` filled under `patched(TD, rec)` during exactly this call;
+    returns True iff the case could be queued"""
+    if not (hasattr(out, 'custom_values') and out.custom_values is not None and out.recovery is not None
+            and rec.tp1 is not None and rec.tp2 is not None and len(rec.matchings) == 2):
+        return False
+    if not driver_has_tftp(ctx):
+        ctx.count('smwpm.toric.ftp', 'skipped: dev-mode driver without the op tftp')
+        return False
+    R, C = size
+    T = len(rows)
+    rw = mat(rows)
+    msw = matches_w(rec.matchings[0][1])
+    idx = {id(o): i for i, o in enumerate(rec.created)}
+    try:
+        cmw = sorted((idx[id(a)], idx[id(b)]) for a, b in rec.matchings[1][1])
+        cmw = '|'.join('{}>{}'.format(a, b) for a, b in cmw) if cmw else '.'
+    except KeyError:
+        cmw = 'unknown-object'
+    nontriv = bool(np.any(rows))
+    mw = 'N' if meas is None else (mat(meas) if len(meas) else '.')
+    tpw = '{},{},{},{}'.format(rec.tp1[0], rec.tp1[1], rec.tp2[0], rec.tp2[1])
+    m2 = dict(meta, itp=bool(itp), meas=mw, T=T, kind='smwpm', toric=True)
+    ctx.case('smwpm tftp {} {} {} {} {} {} {} {}'.format(fl, R, C, int(itp), rw, msw, cmw, mw),
+             'pm=1 tp={} {}'.format(tpw, result_w(out)), nontrivial=nontriv, meta=dict(m2, part='tftp'))
+    ctx.count('smwpm.toric.ftp', 'T={} itp={} cv={}'.format(
+        min(T, 2), int(itp), ','.join(str(int(x)) for x in np.asarray(out.custom_values).tolist())))
+    ctx.count('smwpm.toric.stage-tp', tpw)
+    if run_data is not None and meas is not None and steps:
+        ctx.case('smwpm trun {} {} {} {} {} {} {} {}'.format(fl, R, C, int(itp), mat(steps[0]), mat(meas), msw, cmw),
+                 'rows={} pm=1 {} run={}'.format(rw, result_w(out), run_w(run_data)), nontrivial=nontriv,
+                 meta=dict(m2, part='trun', es=mat(steps[0])))
+        ctx.count('smwpm.toric.run-success', int(bool(run_data['success'])))
+    return True
+
+
+def one(ctx, acc, D, dec, code, S, size, rows, ideal, em_spec, p, q, tag, toric=False, steps=None):
+    """run the real decoder on `rows`, queue the correspondence cases; returns the recovery (or None).
+    `steps` = [step errors, measurement flips] that produce `rows`: the call is then made by the real
+    app.run_once_ftp (rotated toric FTP: ties the DecodeResult and the run verdict as well)"""
     R, C = size
     pre = 'smwpm t' if toric else 'smwpm '
     dname = 'RotatedToricSMWPM' if toric else 'RotatedPlanarSMWPM'
@@ -250,10 +359,16 @@ def one(ctx, acc, D, dec, code, S, size, rows, ideal, em_spec, p, q, tag, toric=
     em = make_em(em_spec)
     meta = {'kind': 'smwpm', 'toric': toric, 'size': [R, C], 'rows': mat(rows), 'ideal': ideal, 'em': list(em_spec), 'p': p, 'q': q,
             'eta': dec._eta, 'tag': tag}
+    th = run_data = None
     try:
         with core.TimeLimit(TL), patched(D, rec):
             if ideal:
                 out = dec.decode(code, rows[0], error_model=em, error_probability=p)
+            elif steps:
+                th, run_data = through_app(dec, code, len(rows), em, p, q, steps)
+                out = th.got
+                if th.syn is not None:
+                    rows = th.syn   # what the simulation really handed over (the model recomputes it: op `trun`)
             else:
                 out = dec.decode_ftp(code, len(rows), rows, error_model=em, error_probability=p,
                                      measurement_error_probability=q)
@@ -335,6 +450,10 @@ def one(ctx, acc, D, dec, code, S, size, rows, ideal, em_spec, p, q, tag, toric=
                  meta=dict(m, part='rec2'))
         ctx.case('smwpm tdecode {} {} {} {} {} {}'.format(fl, R, C, rw, msw, cmw), 'pm=1 rec=' + bits(recovery),
                  nontrivial=nontriv, meta=dict(m, part='decode'))
+        if not ideal:
+            toric_ftp_case(ctx, rec, size, rows, fl, bool(getattr(dec, '_itp', False)),
+                           th.kw.get('step_measurement_errors') if th is not None else None, out, m,
+                           steps=steps if th is not None else None, run_data=run_data)
     else:
         ctx.case('smwpm rec2 {} {} {} {} {}'.format(R, C, T, clw, cmw), bits(rec.rec2), nontrivial=cmw != '.',
                  meta=dict(m, part='rec2'))
@@ -419,9 +538,9 @@ def cases(ctx, budget=None, families=('planar', 'toric')):
         toric, D, Code, sizes, exh_size = fams[fam]
         dname = 'RotatedToricSMWPM' if toric else 'RotatedPlanarSMWPM'
 
-        def mk(eta, ftp):
+        def mk(eta, ftp, itp=True):
             if toric:
-                return D(itp=True, eta=eta) if ftp else D(eta=eta)
+                return D(itp=itp, eta=eta) if ftp else D(eta=eta)
             return D(eta=eta)
         for size in sizes:
             code = Code(*size)
@@ -476,8 +595,12 @@ def cases(ctx, budget=None, families=('planar', 'toric')):
                     q = rng.choice([0, 0.1, 0.2, p, 1]) if T > 1 else rng.choice([0, 0.1, 1])
                     if p == 0 and q in (0, 1):
                         q = 0.1
-                    rows = ftp_rows(rng, S, n, T, p if p else 0.0, q, yonly)
-                    r = one(ctx, acc, D, mk(eta, True), code, S, size, rows, False, em, p, q, 'rand-' + mode, toric=toric)
+                    # rotated toric: the call is made by the real app.run_once_ftp with these step errors / flips
+                    # scripted (itp off three times out of four, chosen without consuming the seeded rng)
+                    steps = [] if toric else None
+                    rows = ftp_rows(rng, S, n, T, p if p else 0.0, q, yonly, steps=steps)
+                    r = one(ctx, acc, D, mk(eta, True, itp=(acc['decodes'] % 4 == 3)), code, S, size, rows, False, em,
+                            p, q, 'rand-' + mode, toric=toric, steps=steps)
                 check(rows, r, {'size': list(size), 'rows': mat(rows), 'eta': eta, 'em': list(em), 'mode': mode})
     if MISSING:
         ctx.case('smwpm hooks', 'all-present', nontrivial=False, meta={'missing': list(MISSING)})
